@@ -274,8 +274,13 @@ class Scenario:
         gd = self.w.ogit("rev-parse", "--absolute-git-dir", cwd=repo).strip()
         common = self.w.ogit("rev-parse", "--git-common-dir", cwd=repo).strip()
         res = set()
+        import glob as _glob
+        cands = []
         for base in {gd, os.path.join(repo, common) if not os.path.isabs(common) else common}:
-            p = os.path.join(base, "ai", "working_logs", head, "INITIAL")
+            cands.append(os.path.join(base, "ai", "working_logs", head, "INITIAL"))
+            # linked worktrees keep their working logs under <common>/ai/worktrees/<name>/working_logs
+            cands.extend(_glob.glob(os.path.join(base, "ai", "worktrees", "*", "working_logs", head, "INITIAL")))
+        for p in cands:
             try:
                 with open(p) as fh:
                     j = json.load(fh)
